@@ -122,7 +122,9 @@ def exact(op, a, scale, in_gas, prior_scale=None):
 
 # ---- real packages ---------------------------------------------------------------------------------------------------------
 FAMILIES = {'alcohols': ['Methanol', 'Ethanol', 'Propanol', 'Butanol'], 'hydrocarbons': ['Hexane', 'Heptane', 'Octane', 'Benzene', 'Toluene'],
-            'aqueous': ['Water', 'Ethanol', 'Propanol', 'Acetone']}
+            'aqueous': ['Water', 'Ethanol', 'Propanol', 'Acetone'],
+            # close-boiling isomers (relative volatilities 1.02 - 1.2): a badly conditioned Rachford-Rice equation
+            'isomers': ['o-Xylene', 'm-Xylene', 'p-Xylene', 'Ethylbenzene', 'Toluene']}
 
 
 def real(family, ideal):
@@ -142,7 +144,7 @@ def _tables(ms):
 
 def measured(family, ideal, comp, kind, u1, u2, k):
     """every clause of C04 measured on one flash of a real package.  comp: ID -> kmol/hr;  kind: specification pair"""
-    obs = dict(exc=NONE, msg='', tp_equal=True, hs_dev=0, v_bracketed=True, boundary_ok=True, fug_dev=0, scale_dev=0, V6=0)
+    obs = dict(exc=NONE, msg='', tp_equal=True, hs_dev=0, v_bracketed=True, boundary_ok=True, fug_dev=0, scale_dev=0, V6=0, rr_dev=0)
     try:
         with warnings.catch_warnings():
             warnings.simplefilter('ignore')
@@ -157,7 +159,7 @@ def measured(family, ideal, comp, kind, u1, u2, k):
                 vol = [i for i in FAMILIES[family] if comp.get(i, 0) > 0]
                 # vapour-fraction, phase-boundary and iso-fugacity clauses: no non-condensable / non-volatile; with activity coefficients only
                 # within one homologous family (C04's quantifier)
-                plain = not (comp.get('N2', 0) or comp.get('Glucose', 0)) and (ideal or family in ('alcohols', 'hydrocarbons'))
+                plain = not (comp.get('N2', 0) or comp.get('Glucose', 0)) and (ideal or family in ('alcohols', 'hydrocarbons', 'isomers'))
                 chems = [getattr(th.chemicals, i) for i in vol]
                 z = np.array([comp[i] for i in vol], float)
                 zn = z / z.sum()
@@ -166,19 +168,43 @@ def measured(family, ideal, comp, kind, u1, u2, k):
                 ms = fresh()
                 spec = {}
                 if kind == 'TP':
+                    if plain and len(vol) > 1 and (family == 'isomers' or k > 10.):
+                        # inside the two-phase envelope (narrow for close-boiling mixtures): P between dew and bubble pressure at T
+                        Pd_, Pb_ = eq.DewPoint(chems, th)(zn, T=T).P, eq.BubblePoint(chems, th)(zn, T=T).P
+                        P = Pd_ + (0.05 + 0.9 * u2) * (Pb_ - Pd_)
                     spec = dict(T=T, P=P)
                 elif kind == 'TV':
                     spec = dict(T=T, V=0.02 + 0.96 * u2)
                 elif kind == 'PV':
                     spec = dict(P=P, V=0.02 + 0.96 * u1)
+                elif kind in ('TH', 'TS'):
+                    # temperature with enthalpy / entropy between the all-liquid and the all-vapour value at that temperature
+                    lo, hi = fresh(), fresh()
+                    lo.vle(T=T, V=0.)
+                    hi.vle(T=T, V=1.)
+                    w = kind[1]
+                    spec = dict(T=T)
+                    spec[w] = getattr(lo, w) + (0.05 + 0.9 * u2) * (getattr(hi, w) - getattr(lo, w))
+                elif kind in ('Tx', 'Ty', 'Px', 'Py'):
+                    # composition specifications (two volatile chemicals): liquid / vapour composition with temperature or pressure
+                    # (next to the overall composition: the lever rule needs it between the liquid and the vapour composition)
+                    c = float(min(max(zn[0] + ((u2 if kind[0] == 'T' else u1) - 0.5) * 0.3, 0.02), 0.98))
+                    spec = {kind[0]: T if kind[0] == 'T' else P, kind[1]: np.array([c, 1. - c])}
                 else:
                     lo, hi = fresh(), fresh()
                     lo.vle(P=P, V=0.)
                     hi.vle(P=P, V=1.)
                     w = 'H' if kind == 'PH' else 'S'
                     spec = dict(P=P)
-                    spec[w] = getattr(lo, w) + u1 * (getattr(hi, w) - getattr(lo, w))
+                    # every third case next to the all-liquid end (with non-condensable gas the solver treats that corner separately)
+                    frac = u1 if int(u2 * 1000) % 3 else 0.06 * u1
+                    spec[w] = getattr(lo, w) + frac * (getattr(hi, w) - getattr(lo, w))
                 ms.vle(**spec)
+                if 'T' in spec and 'P' not in spec and not (2e4 <= ms.P <= 1e6):
+                    # the pressure a temperature specification leads to lies outside 2e4 - 1e6 Pa: outside C04's quantifier
+                    # (at a few hundred Pa the 1 Pa pressure resolution of the T-H / T-S solver is a large part of the envelope)
+                    obs['exc'], obs['msg'] = 'OutOfQuantifier', 'P = %r' % ms.P
+                    return obs
                 g, l = _tables(ms)
                 obs['tp_equal'] = bool(all(getattr(ms, kk) == vv for kk, vv in spec.items() if kk in 'TP'))
                 if 'H' in spec or 'S' in spec:
@@ -220,6 +246,21 @@ def measured(family, ideal, comp, kind, u1, u2, k):
                             fg = eq.GasFugacities(chems, th)(y, T, P)
                             ok = zn >= 0.02
                             obs['fug_dev'] = cap((np.abs(fl - fg) / np.maximum(fl, fg))[ok].max() * 1e9)
+                            if ideal:
+                                # ideal package: an independent Raoult's-law Rachford-Rice solution (bisection to the last bit)
+                                K = np.array([c.Psat(T) for c in chems]) / P
+                                f = lambda V: float((zn * (K - 1.) / (1. + V * (K - 1.))).sum())
+                                lo_, hi_ = 0., 1.
+                                if f(lo_) > 0 > f(hi_):
+                                    for _ in range(200):
+                                        mid = 0.5 * (lo_ + hi_)
+                                        if f(mid) > 0:
+                                            lo_ = mid
+                                        else:
+                                            hi_ = mid
+                                    obs['rr_dev'] = cap(abs(gi.sum() / (gi.sum() + li.sum()) - 0.5 * (lo_ + hi_)) * 1e9)
+                if kind[1] in 'xy':
+                    return obs          # (the composition specifications fix the split by the lever rule: no scaling clause)
                 # scaling of the feed
                 ks = fresh(k)
                 ks.vle(**{kk: (vv * k if kk in 'HS' else vv) for kk, vv in spec.items()})
